@@ -68,6 +68,17 @@ Check C12_walk_terminates : forall runid cyc w c f r mx,
   is_dirty fuel runid cyc w c f r mx [] <> EFuel.
 Print Assumptions C12_walk_terminates.
 
+(* in particular with the fuel the model's commands use (default_fuel), in any
+   database whose edges point at existing rows *)
+Theorem C12_walk_terminates_with_default_fuel : forall runid cyc w c f r mx,
+  (forall x, In x (deps (dbs w)) -> (1 <= d_source x <= length (rows (dbs w)))%nat) ->
+  is_dirty (default_fuel w) runid cyc w c f r mx [] <> EFuel.
+Proof. exact walk_terminates_default_fuel. Qed.
+Check C12_walk_terminates_with_default_fuel : forall runid cyc w c f r mx,
+  (forall x, In x (deps (dbs w)) -> (1 <= d_source x <= length (rows (dbs w)))%nat) ->
+  is_dirty (default_fuel w) runid cyc w c f r mx [] <> EFuel.
+Print Assumptions C12_walk_terminates_with_default_fuel.
+
 (* and it never answers "cyclic dependency" any more, whatever the rows say *)
 Theorem C12_walk_never_reports_a_cycle : forall fuel runid cyc w c f r mx seen w' c' e,
   is_dirty fuel runid cyc w c f r mx seen <> Ret (VCycle, w', c', e).
